@@ -157,7 +157,41 @@ def check_traversal(a, text):
             return ("override-transformer-differs", "%r kind=%s: got %r expected %r" % (text, K, got, exp))
         if a != snap:
             return ("input-mutated:transformer-override", "%r kind=%s" % (text, K))
+        # a long-lived instance of such a transformer, which every third time first aborts a traversal
+        # of this very tree (its handler raises half-way), must answer like a new instance
+        slot = _LONG_T.get(K)
+        if slot is None:
+            def handler2(self, node):
+                if self.armed:
+                    raise _Boom()
+                return change(NodeTransformer.generic_visit(self, node))
+            slot = _LONG_T[K] = [type("V", (NodeTransformer,), {"visit_" + K: handler2, "armed": False})(), 0]
+        slot[1] += 1
+        try:
+            if slot[1] % 3 == 0:
+                slot[0].armed = True
+                try:
+                    slot[0].visit(a)
+                except _Boom:
+                    pass
+                slot[0].armed = False
+            got2 = slot[0].visit(a)
+        except Exception as e:
+            _LONG_T.pop(K, None)
+            return ("reused-transformer-exception:" + lib.exc_bucket(e), "%r kind=%s: %s: %s" % (text, K, type(e).__name__, e))
+        if got2 != exp:
+            _LONG_T.pop(K, None)
+            return ("reused-transformer-differs", "%r kind=%s: long-lived instance -> %r expected %r" % (text, K, got2, exp))
+        if a != snap:
+            return ("input-mutated:reused-transformer", "%r kind=%s" % (text, K))
     return None
+
+
+_LONG_T = {}
+
+
+class _Boom(Exception):
+    pass
 
 
 _ORM = {}
@@ -209,11 +243,37 @@ def check_equality(t, t2):
     """a == b iff decode(a) == decode(b)."""
     ta, tb = printer.render(t), printer.render(t2)
     try:
-        a, b, a2 = lib.parse(ta), lib.parse(tb), lib.parse(ta)
+        # a: wherever the variant's trees come from; a2: parsed here and now
+        a, b, a2 = lib.parse(ta), lib.parse(tb), lib.parse_plain(ta)
     except Exception as e:
         return None  # not C16's business
-    if a != a2 or not (a == a2):
+    if a != a2 or not (a == a2) or a2 != a or not (a2 == a):
         return ("equality:reparsed-copy-differs", "%r" % ta)
+    try:
+        if hash(a) != hash(a2) or a not in {a2} or {a: 1}.get(a2) != 1:
+            return ("equality:equal-trees-hash-differently", "%r" % ta)
+    except TypeError:
+        pass        # trees that hold lists are not hashable
+    # every sub-tree of one is found in a set of the other's sub-trees (what AliasRewriter-style lookups rely on)
+    try:
+        subs = lambda n: [n] + [y for f in getattr(n, "__dataclass_fields__", {}) for x in (getattr(n, f),)   # noqa: E731
+                                for y in (subs(x) if hasattr(x, "__dataclass_fields__") else
+                                          [z for e_ in x for z in subs(e_)] if isinstance(x, list) else [])]
+        pool = set()
+        for n in subs(a2):
+            try:
+                pool.add(n)
+            except TypeError:
+                pass
+        for n in subs(a):
+            try:
+                hash(n)
+            except TypeError:
+                continue
+            if n not in pool:
+                return ("equality:sub-tree-not-found-in-set-of-equal-trees", "%r: %r" % (ta, n))
+    except RecursionError:
+        pass
     da, db = decode(a), decode(b)
     if (a == b) != (da == db):
         return ("equality:disagrees-with-structure", "%r vs %r: == is %s, structural equality is %s" % (ta, tb, a == b, da == db))
